@@ -387,5 +387,25 @@ def toRegistry (j : Json) : De PortableRegistry :=
   | .error e => .error e
   | .ok kv => req kv .types (deArr dePType)
 
+/-! ## the positional form, as a writer (used only to state that the reader accepts it) -/
+
+def posOpt (o : Option Str) : Json := match o with | some s => jStr s | none => .null
+def posField (f : Field Nat) : Json := .arr [posOpt f.name, .num f.ty, posOpt f.typeName, jStrs f.docs]
+def posVariant (v : Variant Nat) : Json := .arr [jStr v.name, .arr (v.fields.map posField), .num v.index, jStrs v.docs]
+def posTypeDef : TypeDef Nat → Json
+  | .composite fs => .obj [(.composite, .arr [.arr (fs.map posField)])]
+  | .variant vs => .obj [(.variant, .arr [.arr (vs.map posVariant)])]
+  | .sequence t => .obj [(.sequence, .arr [.num t])]
+  | .array n t => .obj [(.array, .arr [.num n, .num t])]
+  | .tuple ts => .obj [(.tuple, .arr (ts.map .num))]
+  | .primitive p => .obj [(.primitive, .obj [(.other (primName p), .null)])]
+  | .compact t => .obj [(.compact, .arr [.num t])]
+  | .bitSequence s o => .obj [(.bitsequence, .arr [.num s, .num o])]
+def posParam (p : TypeParam Nat) : Json := .arr [jStr p.name, match p.ty with | some t => .num t | none => .null]
+def posTy (t : Ty Nat) : Json := .arr [jStrs t.path, .arr (t.params.map posParam), posTypeDef t.def_, jStrs t.docs]
+def posPType (p : PType) : Json := .arr [.num p.id, posTy p.ty]
+/-- every struct as a positional array, every unit variant as a one-member map -/
+def posOfRegistry (r : PortableRegistry) : Json := .arr [.arr (r.map posPType)]
+
 end JsonM
 end SIM
